@@ -443,6 +443,13 @@ def register_op(sess, ctx, functions, oi):
                     sess.fired["refusal." + what] += 1
                 else:
                     raise core.Violation("C18", "invalid-accepted", {"request": what}, {"request": what})
+    elif k == "delsym":
+        sym = next(iter(world.module.symbols_named(op["name"])), None)
+        if sym is None:
+            raise core.Rejected("delete of an unknown symbol")
+        ctx.delete_symbol(sym, force=bool(op.get("force")))
+        prev = sess.delsyms.get(op["name"])
+        sess.delsyms[op["name"]] = bool(op.get("force")) and (prev is None or prev)
     elif k == "insfn":
         p = sess.patches[oi] = SimPatch(sess, oi, op["patch"])
         sym = ctx.register_insert_function(op["name"], p)
@@ -513,6 +520,20 @@ def instrumented(sess):
 
         setattr(mod, name, w)
 
+    orig_delsyms = rw_mod.delete_symbols
+    saved[(rw_mod, "delete_symbols")] = orig_delsyms
+
+    def delsyms(module, symbols):
+        sess.steps.append("delete_symbols")
+        if sess.armed == "C19":
+            from . import oracles
+
+            # state right before the symbols are deleted (after all other
+            # modifications and retargets of this apply())
+            sess.c19_pre = oracles.c19_pre(sess.world)
+        return orig_delsyms(module, symbols)
+
+    rw_mod.delete_symbols = delsyms
     rw_mod.RewritingContext._invoke_patch = invoke
     wrap_step(rw_mod, "insert", "insert", True)
     wrap_step(rw_mod, "delete", "delete", True)
@@ -680,6 +701,7 @@ def run_session(world, model, sdesc, armed, index, logger=None, gen_cb=None, che
     ops = sdesc["ops"]
     order = sdesc.get("reg_order") or list(range(len(ops)))
     sess.resolved = {}
+    sess.delsyms = {}
     sess.retargets = []
     sess.insfn = []
     sess.expanded = {}
@@ -837,6 +859,11 @@ def apply_to_model(sess):
 
 def apply_retargets(sess):
     from . import oracles
+
+    if sess.delsyms:
+        sess.c19_used = oracles.c19_uses(sess.model, [n for n, f in sess.delsyms.items() if not f])
+    if sess.delsyms and sess.error is None:
+        sess.model.delete_symbols(set(sess.delsyms))
 
     if sess.retargets:
         # whether a label that slid onto a block deleted with
